@@ -65,6 +65,14 @@ def gen_pool(rng):
     def variant(src, tag, **changes):
         a = copy.deepcopy(src)
         a.update(changes)
+        if pool and rng.random() < 0.6:
+            # the attributes that are NOT part of the identity differ freely between two listings
+            a["disc_count"] = rng.choice([1, 2, 3, a["disc_number"], a["disc_count"] + 1])
+            a["mtime"] = rng.randint(1, 2 ** 31)
+            a["size"] = rng.randint(1, 2 ** 40)
+            a["bootable"] = rng.random() < 0.5
+            a["volume_id"] = rng.choice([None, "VOL-%d" % len(pool), a["volume_id"]])
+            a["implant_md5"] = rng.choice([None, "%032x" % rng.getrandbits(128)])
         a["path"] = "%s/%s-%d.%s" % (rng.choice(["Server", "Client", "iso"]), tag, len(pool), a["format"])
         pool.append({"attrs": a, "tag": tag})
         return a
